@@ -124,7 +124,7 @@ func ParseRedeem(data []byte, lockredeemAbi string) (req *RedeemRequest, err err
 		return nil, err
 	}
 	ss := strings.Split(hex.EncodeToString(data), methodSignature)
-	if len(ss) == 0 {
+	if len(ss) < 2 {
 		return nil, errors.New("Transaction does not have the required input data")
 	}
 	if len(ss[1]) < 64 {
@@ -157,6 +157,10 @@ func DecodeTransaction(data []byte) (*types.Transaction, error) {
 	err := rlp.DecodeBytes(data, tx)
 	if err != nil {
 		return nil, errors.Wrap(err, "Unable to decode Bytes")
+	}
+	// locks and redeems are calls of a contract: the callers compare and dereference the recipient
+	if tx.To() == nil {
+		return nil, errors.New("Transaction is a contract creation")
 	}
 
 	return tx, nil
